@@ -5,7 +5,7 @@
    kinds: 0 = molecule built by assignment, 1 = overflow singleton, 2 = invalid fragment yielded alone. *)
 From Coq Require Import ZArith List Bool Permutation.
 Import ListNotations.
-From SCMO Require Import Lib.Val Gen.GenAssign Model.C06 Proofs.C06_shape Proofs.C06 Proofs.C06_dup Proofs.C06_main Proofs.C06_greedy Proofs.C06_cap Proofs.C06_state.
+From SCMO Require Import Lib.Val Gen.GenAssign Model.C06 Model.C06x Proofs.C06_shape Proofs.C06 Proofs.C06_dup Proofs.C06_main Proofs.C06_greedy Proofs.C06_cap Proofs.C06_state Proofs.C06x Proofs.C06x_eq Proofs.C06x_ovf.
 Open Scope Z_scope.
 
 (* ---- T: the kernel REGENERATED from /repo (Gen/GenAssign.v), with which the model is defined, has the shape the
@@ -197,3 +197,191 @@ Example C06_example :
   = Some [[(0, 0, false, 3); (1, 1, true, 3); (4, 2, true, 3)]; [(3, 0, false, 1)]; [(2, 0, false, 1)]].
 Proof. vm_compute. reflexivity. Qed.
 Print Assumptions C06_example.
+
+(* ================================================================ extension: the iterator / molecule options
+   [assign0] = pooling_method=0 (one flat buffer scanned in order, add_fragment(use_hash=False): the incoming fragment is
+   compared with EVERY associated fragment by the member's __eq__); [assign_efm] = every_fragment_as_molecule=True;
+   [assign] above = pooling_method=1.  Model/C06x.v *)
+
+(* T: the use_hash=False path of Molecule.add_fragment (member scan; capacity test only after a member matched) and
+   which use_hash keyword each pooling method passes (regenerated: g_add_decision0, g_pool_use_hash) *)
+Theorem C06_kernel_add0 : forall c f m ms,
+  offer0 c f (m :: ms) =
+  (if accepts0 c f m then (if full c m then Overflowed (mol_bump m f :: ms) else Added (mol_add m f :: ms))
+   else match offer0 c f ms with Added r => Added (m :: r) | Overflowed r => Overflowed (m :: r) | Rejected => Rejected end) /\
+  g_pool_use_hash 0 = false /\ g_pool_use_hash 1 = true.
+Proof. exact add0_shape. Qed.
+Print Assumptions C06_kernel_add0.
+
+(* fragment-to-fragment __eq__ (member g against incoming f) of the three classes *)
+Theorem C06_kernel_feq : forall c g f, feq c g f = feq_spec c g f.
+Proof. exact feq_shape. Qed.
+Print Assumptions C06_kernel_feq.
+
+(* (a) pooling 0 = pooling 1 when the comparison is exact (distance 0; NLA or CHIC radius 0): the same molecules - the same
+   fragment lists in arrival order, the same refused fragments (TF), the same overflow / invalid singletons - for every
+   arrival order and every cap, and the same inputs raise *)
+Theorem C06_pool_equiv : forall c frags, c_d c = 0 -> exact_site c -> same_molecules (assign0 c frags) (assign c frags).
+Proof. exact pool_equiv. Qed.
+Print Assumptions C06_pool_equiv.
+
+(* ... and not otherwise.  Distance > 0 (NLA, UMIs AAA AAT ATT): pooling 1 asks the representative UMI, pooling 0 any member *)
+Theorem C06_pool_equiv_umi_refuted : exists c frags, exact_site c /\ c_d c = 1 /\
+  part (assign c frags) = Some [[0; 1]; [2]] /\ part (assign0 c frags) = Some [[0; 1; 2]].
+Proof. exact pool_equiv_umi_refuted. Qed.
+Print Assumptions C06_pool_equiv_umi_refuted.
+
+(* CHIC radius > 0 (radius 2, sites 1000 1002 1004, one UMI): pooling 1 asks the molecule's extreme site, pooling 0 any member *)
+Theorem C06_pool_equiv_radius_refuted : exists c frags, c_cls c = 2 /\ c_r c = 2 /\ c_d c = 0 /\
+  part (assign c frags) = Some [[0; 1]; [2]] /\ part (assign0 c frags) = Some [[0; 1; 2]].
+Proof. exact pool_equiv_radius_refuted. Qed.
+Print Assumptions C06_pool_equiv_radius_refuted.
+
+(* ... and neither partition refines the other (sites 1000 1005 1002 1003) *)
+Theorem C06_pool_refinement_refuted : exists c frags, c_cls c = 2 /\ c_d c = 0 /\
+  part (assign c frags) = Some [[0; 2]; [1; 3]] /\ part (assign0 c frags) = Some [[0; 2; 3]; [1]].
+Proof. exact pool_no_refinement_refuted. Qed.
+Print Assumptions C06_pool_refinement_refuted.
+
+(* what holds for pooling 0 with every class, distance, radius, cap and arrival order: *)
+(* partition *)
+Theorem C06_pool0_partition : forall c frags out, c_yover c = true -> assign0 c frags = Some out ->
+  Permutation (concat (map m_frags out)) (filter (needs_mol c) frags).
+Proof. exact partition0_main. Qed.
+Print Assumptions C06_pool0_partition.
+
+(* soundness: fragments of a molecule share cell, strand, contig (and site for exact classes); every fragment after the
+   first was accepted by SOME earlier member: UMI within the distance of that member's UMI, site within the radius of that
+   member's site (CHIC radius > 0) / start-or-end within the radius of that member's (plain) *)
+Theorem C06_pool0_sound : forall c frags out m, assign0 c frags = Some out -> In m out ->
+  (forall f g, In f (m_frags m) -> In g (m_frags m) ->
+     f_cell f = f_cell g /\ f_strand f = f_strand g /\ f_contig f = f_contig g /\ (exact_site c -> f_site f = f_site g)) /\
+  (forall p f q, m_frags m = p ++ f :: q -> p <> [] -> exists g, In g p /\ link c g f) /\
+  (m_kind m <> 2 -> forall f, In f (m_frags m) -> f_valid f = true).
+Proof. exact sound0_main. Qed.
+Print Assumptions C06_pool0_sound.
+
+(* (c) cap and TF accounting for pooling 0 *)
+Theorem C06_pool0_cap : forall c frags out k m, c_cap c = Some k -> assign0 c frags = Some out -> In m out ->
+  Z.of_nat (length (m_frags m)) <= k /\ (m_ovf m <> [] -> Z.of_nat (length (m_frags m)) = k).
+Proof. exact cap0_main. Qed.
+Print Assumptions C06_pool0_cap.
+
+Theorem C06_pool0_TF_total : forall c frags out, assign0 c frags = Some out ->
+  list_sum (map tfn (filter normal out)) = length (filter f_valid frags).
+Proof. exact tf0_total_main. Qed.
+Print Assumptions C06_pool0_TF_total.
+
+(* (c) the order of the capacity test, as coded, both pooling methods, every cap and every pool content: an arriving
+   fragment is refused with OverflowError exactly by the FIRST molecule of its pool that matches it, and only if that one
+   is full; molecules before it - full or not - that do not match are passed over unchanged; a full molecule that does
+   not match neither absorbs nor refuses it.  ([offer] is one scan of `for molecule in pool: molecule.add_fragment`) *)
+Theorem C06_cap_order : forall c f ms,
+  match offer c f ms with
+  | Added ms' => exists l1 m l2, ms = l1 ++ m :: l2 /\ ms' = l1 ++ mol_add m f :: l2 /\
+                                 accepts c f m = true /\ full c m = false /\ rejects c f l1
+  | Overflowed ms' => exists l1 m l2, ms = l1 ++ m :: l2 /\ ms' = l1 ++ mol_bump m f :: l2 /\
+                                      accepts c f m = true /\ full c m = true /\ rejects c f l1
+  | Rejected => rejects c f ms
+  end.
+Proof. exact offer_spec. Qed.
+Print Assumptions C06_cap_order.
+
+Theorem C06_cap_order_pool0 : forall c f ms,
+  match offer0 c f ms with
+  | Added ms' => exists l1 m l2, ms = l1 ++ m :: l2 /\ ms' = l1 ++ mol_add m f :: l2 /\
+                                 accepts0 c f m = true /\ full c m = false /\ rejects0 c f l1
+  | Overflowed ms' => exists l1 m l2, ms = l1 ++ m :: l2 /\ ms' = l1 ++ mol_bump m f :: l2 /\
+                                      accepts0 c f m = true /\ full c m = true /\ rejects0 c f l1
+  | Rejected => rejects0 c f ms
+  end.
+Proof. exact offer0_spec. Qed.
+Print Assumptions C06_cap_order_pool0.
+
+(* (c) overflow fragments: every molecule marked `overflow` is ONE valid fragment with nothing refused; with
+   yield_overflow their number equals the number of refused fragments the assigned molecules count in TF
+   (ovf_sum = sum of overflow_fragments), without yield_overflow there are none - both pooling methods, every cap,
+   distance, radius and arrival order *)
+Theorem C06_overflow_singletons : forall c frags out, assign c frags = Some out ->
+  (forall m, In m out -> m_kind m = 1 -> exists f, m_frags m = [f] /\ m_ovf m = [] /\ f_valid f = true) /\
+  (c_yover c = true -> length (filter is_over out) = ovf_sum (filter normal out)) /\
+  (c_yover c = false -> filter is_over out = []).
+Proof. exact overflow_main1. Qed.
+Print Assumptions C06_overflow_singletons.
+
+Theorem C06_overflow_singletons_pool0 : forall c frags out, assign0 c frags = Some out ->
+  (forall m, In m out -> m_kind m = 1 -> exists f, m_frags m = [f] /\ m_ovf m = [] /\ f_valid f = true) /\
+  (c_yover c = true -> length (filter is_over out) = ovf_sum (filter normal out)) /\
+  (c_yover c = false -> filter is_over out = []).
+Proof. exact overflow_main0. Qed.
+Print Assumptions C06_overflow_singletons_pool0.
+
+(* with the capacity test hoisted before the match test (NOT the code; seeded change C06-13) C06_exact_cap fails: two
+   UMIs at one site, cap 1 - the second fragment becomes an overflow singleton counted in the TF of the first molecule *)
+Theorem C06_cap_hoisted_refuted : exists c frags, c_d c = 0 /\ exact_site c /\ c_cap c = Some 1 /\
+  option_map (map shape3) (assign c frags) = Some [([0], 1%nat, 0); ([1], 1%nat, 0)] /\
+  option_map (map shape3) (assign0 c frags) = Some [([0], 1%nat, 0); ([1], 1%nat, 0)] /\
+  map shape3 (assign_h c frags) = [([1], 1%nat, 1); ([0], 2%nat, 0)].
+Proof. exact cap_hoisted_refuted. Qed.
+Print Assumptions C06_cap_hoisted_refuted.
+
+(* (b) every_fragment_as_molecule: every valid fragment (and with yield_invalid every invalid one) is a molecule of its
+   own, in arrival order, nothing refused; so after write_tags RC = 0, not duplicate, af = TF = 1 *)
+Theorem C06_efm : forall c frags out, assign_efm c frags = Some out ->
+  Permutation (concat (map m_frags out)) (filter (needs_mol c) frags) /\
+  (forall m, In m out -> exists f, In f frags /\ m_frags m = [f] /\ m_ovf m = [] /\
+      (m_kind m = 0 /\ f_valid f = true \/ m_kind m = 2 /\ f_valid f = false /\ c_yinv c = true)) /\
+  map m_frags (filter normal out) = map (fun f => [f]) (filter f_valid frags).
+Proof. exact efm_main. Qed.
+Print Assumptions C06_efm.
+
+Theorem C06_efm_tags : forall m f, m_frags m = [f] -> m_ovf m = [] ->
+  write_tags true m = [{| t_id := f_id f; t_rc := 0; t_dup := false; t_af := 1; t_tf := 1; t_qc := negb (f_valid f) |}].
+Proof. exact single_tags. Qed.
+Print Assumptions C06_efm_tags.
+
+(* (d) histories with two iterators in one process (MODEL-level: the two buffers and configurations are separate
+   states; that the CODE shares nothing between iterators - e.g. no process-wide cache of UMI verdicts keyed without the
+   distance, seeded change C06-12 - is tied by the correspondence check, which runs such interleaved histories through
+   the real iterators and compares each with the model of its own settings): whatever the interleaving, each
+   iterator ends as if it had run alone *)
+Theorem C06_duo_isolated : forall c1 c2 sched la lb,
+  duo_run (step c1) (step0 c2) sched la lb st0 s00 = (fold_left (step c1) la st0, fold_left (step0 c2) lb s00) /\
+  duo_run (step c1) (step c2) sched la lb st0 st0 = (fold_left (step c1) la st0, fold_left (step c2) lb st0).
+Proof. exact duo_isolated_main. Qed.
+Print Assumptions C06_duo_isolated.
+
+(* exactness for pooling 0 (distance 0, exact sites), without and with a cap: the statements of C06_exact / C06_exact_cap *)
+Theorem C06_pool0_exact : forall c frags out, c_d c = 0 -> exact_site c -> c_cap c = None -> assign0 c frags = Some out ->
+  let ms := filter normal out in
+  let vf := filter f_valid frags in
+  (forall m, In m ms -> exists g, In g vf /\ m_frags m = filter (fkeyb c g) vf) /\
+  (forall x, In x vf -> exists m, In m ms /\ In x (m_frags m)) /\
+  NoDup (map (mkey c) ms) /\
+  (forall m, In m out -> normal m = false -> exists f, m_frags m = [f] /\ f_valid f = false).
+Proof. exact exact0_main. Qed.
+Print Assumptions C06_pool0_exact.
+
+Theorem C06_pool0_exact_cap : forall c k frags out, c_d c = 0 -> exact_site c -> c_cap c = Some k -> 1 <= k -> assign0 c frags = Some out ->
+  let ms := filter normal out in
+  let vf := filter f_valid frags in
+  (forall m, In m ms -> exists g, In g vf /\ m_frags m = firstn (Z.to_nat k) (filter (fkeyb c g) vf) /\
+                                  m_ovf m = skipn (Z.to_nat k) (filter (fkeyb c g) vf) /\
+                                  Z.of_nat (length (m_frags m)) + m_over m = Z.of_nat (length (filter (fkeyb c g) vf))) /\
+  (forall x, In x vf -> exists m g, In m ms /\ hd_error (m_frags m) = Some g /\ fkeyb c g x = true) /\
+  NoDup (map (mkey c) ms).
+Proof. exact exact0_cap_main. Qed.
+Print Assumptions C06_pool0_exact_cap.
+
+(* non-vacuity of the extension *)
+Example C06_pool_equiv_example :
+  option_map (map shape3) (assign0 (xc 1 0 0 (Some 2)) w_eq) = Some [([4], 1%nat, 1); ([0; 2], 3%nat, 0); ([1], 1%nat, 0); ([3], 1%nat, 0)] /\
+  option_map (map shape3) (assign (xc 1 0 0 (Some 2)) w_eq) = Some [([4], 1%nat, 1); ([0; 2], 3%nat, 0); ([1], 1%nat, 0); ([3], 1%nat, 0)].
+Proof. exact pool_equiv_example. Qed.
+Print Assumptions C06_pool_equiv_example.
+Example C06_efm_example :
+  option_map (map (fun m => map (fun t => (t_id t, t_rc t, t_dup t, t_af t, t_tf t)) (write_tags true m)))
+    (assign_efm (xc 1 1 0 (Some 1)) [xf 0 1000 [65;65]; xf 1 1000 [65;65]; xf 2 1000 [65;67]])
+  = Some [[(0, 0, false, 1, 1)]; [(1, 0, false, 1, 1)]; [(2, 0, false, 1, 1)]].
+Proof. exact efm_example. Qed.
+Print Assumptions C06_efm_example.
